@@ -154,7 +154,7 @@ def run(chk):
                     chk.fail("optimize-drops-explicit-access", "optimize changed the sequence of protected/inline lines",
                              {"input": [show_line(l) for l in v], "output": [show_line(l) for l in r["code"]["lines"]]})
     # ---- programs ----
-    corpus = [(k["exemplar"], None) for k in chk.known if k.get("exemplar")]
+    corpus = [(c, None) for c in chk.corpus()]
     nprog = chk.scale(250, 4000)
     progs = corpus + [gen_hw_program(rng, straight=rng.random() < 0.5) for _ in range(nprog)]
     hwlo, hwhi = 0, 0x40
